@@ -55,6 +55,8 @@ def build_jobs(tier, seed):
     for (nr, nt, nsc) in shapes(tier):
         for dirbc in (0, 1):
             jobs += jobs_for(nr, nt, nsc, dirbc)
+    for (nr, nt, nsc, nsc_c) in ([(5, 4, 2, 1), (7, 6, 4, 2)] if tier == "quick" else [(5, 4, 2, 1), (7, 6, 4, 2), (5, 8, 0, 0), (7, 4, 7, 4), (9, 4, 3, 1)]):
+        jobs += cache_jobs(nr, nt, nsc, nsc_c)
     return jobs
 
 
@@ -100,6 +102,59 @@ def jobs_for(nr, nt, nsc, dirbc):
               covers={"COVER:reached_end"}, extra=["--max-field-sensitivity-array-size", "4096"])
     job.rules, job.hashes = rules, hashes
     return [job]
+
+
+def cache_jobs(nr, nt, nsc, nsc_c):
+    """B: LevelCache(grid, ...) followed by obtainValues delivers, under each of the four cache-flag combinations,
+    the fresh evaluation at the node; C: LevelCache(previous_level, coarse grid) followed by obtainValues on the
+    coarse level delivers the fresh evaluation at the coarse node (its radius/angle are the fine ones at 2i/2j)."""
+    rules, hashes = Rules("C03"), {}
+    ncr, nct = (nr + 1) // 2, nt // 2
+    N, NC = nr * nt, ncr * nct
+    c = [units.PRELUDE_R, units.VCHK, units.POLARGRID_STRUCT, units.PROVIDERS, units.OPERATOR_PRELUDE]
+    c.append(units.polargrid_instance("fineGrid", "R", rules, nr, nt, hashes))
+    c.append(units.polargrid_instance("coarseGrid", "R", rules, ncr, nct, hashes))
+    c.append(units.jacobian_macro(rules, "R", hashes))
+    c.append(units.levelcache_instance("LCF", "R", rules, N, nr, nt, hashes))
+    c.append(units.levelcache_instance("LCC", "R", rules, NC, ncr, nct, hashes))
+    t, ctor1 = units.levelcache_ctor("LCF", 0, rules, "R", hashes, "fineGrid")
+    c.append(t)
+    t, ctor2 = units.levelcache_ctor("LCC", 1, rules, "R", hashes, "coarseGrid", prev="LCF", prev_grid="fineGrid")
+    c.append(t)
+    c.append("static void setup(void) {")
+    c.append(units.grid_setup_concrete("fineGrid", nr, nt, nsc, antipodal=True))
+    # coarse grid = every second node (contract of coarseningGrid, C17); its own split is free
+    c.append(units.grid_setup_concrete("coarseGrid", ncr, nct, nsc_c))
+    for i in range(ncr):
+        c.append("  coarseGrid__radii_[%d] = fineGrid__radii_[%d];" % (i, 2 * i))
+    for j in range(nct + 1):
+        c.append("  coarseGrid__angles_[%d] = fineGrid__angles_[%d];" % (j, 2 * j))
+    c.append("}")
+    fns = ["LevelCache::LevelCache(grid,...)", "LevelCache::LevelCache(previous_level, grid)", "LevelCache::obtainValues",
+           "compute_jacobian_elements", "PolarGrid::index"]
+    jobs = []
+    for cd in (0, 1):
+        for cg in (0, 1):
+            h = ["void harness(void) {", "  setup();", "  %s(%d, %d);" % (ctor1, cd, cg), "  %s();" % ctor2]
+            for (lc, g, rr, tt, lab) in (("LCF", "fineGrid", nr, nt, "cached_eq_uncached"), ("LCC", "coarseGrid", ncr, nct, "coarse_cache_eq_fresh")):
+                for i in range(rr):
+                    for j in range(tt):
+                        h.append("  { const real_t r = %s.radius(%d); const real_t theta = %s.theta(%d);" % (g, i, g, j))
+                        h.append("    const real_t s0 = sin(theta), c0 = cos(theta), al0 = prov_alpha(r), be0 = prov_beta(r);")
+                        h.append("    real_t arr0, att0, art0, det0; compute_jacobian_elements(%s__domain_geometry_, r, theta, s0, c0, al0, arr0, att0, art0, det0);" % lc)
+                        h.append("    real_t sin_theta, cos_theta, coeff_beta, arr, att, art, detDF; const int gi = %s.index(%d, %d);" % (g, i, j))
+                        h.append("    %s__obtainValues(%d, %d, gi, r, theta, sin_theta, cos_theta, coeff_beta, arr, att, art, detDF);" % (lc, i, j))
+                        h.append("    __CPROVER_assert(sin_theta == s0 && cos_theta == c0 && coeff_beta == be0 && arr == arr0 && att == att0 && art == art0 && detDF == det0, "
+                                 "\"OBL:%s[node=(%d,%d)]\"); }" % (lab, i, j))
+            h.append("  __CPROVER_assert(LCF__sin_theta_[0] != LCF__sin_theta_[0], \"COVER:reached_end\");")
+            h.append("}")
+            tag = "[nr=%d,nt=%d,nsc=%d,nscC=%d,cacheProfile=%d,cacheGeometry=%d]" % (nr, nt, nsc, nsc_c, cd, cg)
+            j = Job("C03.B" + tag, "\n".join(c + h), "R", unwind=max(nr, nt) + 2, timeout=600,
+                    bounded="grid shape fixed (fine %dx%d split %d, coarse split %d); radii, angles symbolic; geometry/profile functions uninterpreted" % (nr, nt, nsc, nsc_c),
+                    functions=fns, covers={"COVER:reached_end"}, extra=["--max-field-sensitivity-array-size", "4096"])
+            j.rules, j.hashes = rules, hashes
+            jobs.append(j)
+    return jobs
 
 
 EXPLANATION = "C03 (work in progress)"
